@@ -293,6 +293,47 @@ func checkC14(c *vlib.Ctx) (string, string) {
 				}
 			}
 		}
+		// E4b: the same budget with padded names and empty elements that carry whitespace themselves: every sorted
+		// sublist, one padding per side for all names, k = 0..18 empty elements of one of five spellings, placed in
+		// front, behind or after the first name (total line length is what grows here)
+		for mask := 1; mask < 1<<len(sorted) && len(sorted) <= 6; mask++ {
+			var sub []string
+			for j, s := range sorted {
+				if mask&(1<<j) != 0 {
+					sub = append(sub, s)
+				}
+			}
+			for _, lp := range []string{"", " ", "\t"} {
+				for _, rp := range []string{"", " ", "\t"} {
+					padded := make([]string, len(sub))
+					for j, s := range sub {
+						padded[j] = lp + s + rp
+					}
+					for _, em := range []string{"", " ", "\t", " \t", "  "} {
+						for k := 0; k <= 18; k++ {
+							empties := make([]string, k)
+							for j := range empties {
+								empties[j] = em
+							}
+							for where := 0; where < 3; where++ {
+								var els []string
+								switch where {
+								case 0:
+									els = append(append(els, empties...), padded...)
+								case 1:
+									els = append(append(els, padded...), empties...)
+								case 2:
+									els = append(append(append(els, padded[0]), empties...), padded[1:]...)
+								}
+								c.Evaluations.Add(1)
+								c.Transitions.Add(1)
+								tryInternal(f, ss, []string{strings.Join(els, ",")})
+							}
+						}
+					}
+				}
+			}
+		}
 		// E5: the window edge: elements of length MaxLen-1..MaxLen+2 with 0-3 OWS bytes per side
 		maxLen := 0
 		for _, s := range f.set {
